@@ -297,6 +297,13 @@ func (vt *Model) cup(pm [][]int) {
 	if vt.cursor.row > row(vt.height()-1) {
 		vt.cursor.row = row(vt.height() - 1)
 	}
+	// a zero parameter means the default, 1
+	if vt.cursor.col < 0 {
+		vt.cursor.col = 0
+	}
+	if vt.cursor.row < 0 {
+		vt.cursor.row = 0
+	}
 }
 
 // Cursor Forward Tabulation (CHT) CSI Ps I
